@@ -647,14 +647,18 @@ pub fn scripted_block_header<R: io::BufRead>(input: &mut R, _header_size: u64) -
 
 /// HS: header size byte. Symbolic: declared compressed / uncompressed sizes (or absent), the
 /// header CRC field, the block padding bytes, the two payload bytes, check = None or CRC32 field.
-fn read_block_fields<const HS: usize, const CHECK: u8>() {
+fn read_block_fields<const HS: usize, const CHECK: u8, const SYM: u8>() {
     let mut t = Tape::<48>::new();
     let d0 = t.u8();
     let d1 = t.u8();
-    let packed = t.u64();
-    let unpacked = t.u64();
-    let crc_field = t.u32();
-    let padb = [t.u8(), t.u8(), t.u8()];
+    let packed_s = t.u64();
+    let unpacked_s = t.u64();
+    let crc_s = t.u32();
+    let pad_s = [t.u8(), t.u8(), t.u8()];
+    // one field group symbolic per instance (SYM: 1 header CRC, 2 declared sizes, 3 block padding, 4 all)
+    let packed = if SYM == 2 || SYM == 4 { packed_s } else { u64::MAX };
+    let unpacked = if SYM == 2 || SYM == 4 { unpacked_s } else { u64::MAX };
+    let padb = if SYM == 3 || SYM == 4 { pad_s } else { [0u8, 0, 0] };
     let chk = [t.u8(), t.u8(), t.u8(), t.u8()];
     BH_PACKED.store(packed, Ordering::Relaxed);
     BH_UNPACKED.store(unpacked, Ordering::Relaxed);
@@ -666,6 +670,7 @@ fn read_block_fields<const HS: usize, const CHECK: u8>() {
     f[3] = 0x01;
     f[4] = 0x16;
     let want_crc = ref_crc32(&f[0..hlen]);
+    let crc_field = if SYM == 1 || SYM == 4 { crc_s } else { want_crc };
     let c = crc_field.to_le_bytes();
     f[hlen] = c[0];
     f[hlen + 1] = c[1];
@@ -745,7 +750,7 @@ fn read_block_fields<const HS: usize, const CHECK: u8>() {
 #[cfg_attr(kani, kani::stub(crate::decode::lzma::DecoderState::new, crate::decode::stream::verif_h::new_scripted_lit))]
 #[cfg_attr(kani, kani::stub(crate::decode::lzbuffer::LzAccumBuffer::from_stream, crate::decode::lzbuffer::verif_h::accum_from_stream_with_capacity))]
 pub fn xzblk_read_block_fields_hs3_chk0() {
-    read_block_fields::<3, 0>()
+    read_block_fields::<3, 0, 4>()
 }
 
 //@ harness props=C03,C06,C07 tier=thorough optional=yes unwind=6 unwindset=update_table:300,ref_crc32.0:10,ref_crc32.1:300,default_read_exact:4,decompress:4,scripted_block_header:5,read_block_fields:5,spec_fill:8200 mem_gb=12 timeout=900 native=no
@@ -757,7 +762,7 @@ pub fn xzblk_read_block_fields_hs3_chk0() {
 #[cfg_attr(kani, kani::stub(crate::decode::lzma::DecoderState::new, crate::decode::stream::verif_h::new_scripted_lit))]
 #[cfg_attr(kani, kani::stub(crate::decode::lzbuffer::LzAccumBuffer::from_stream, crate::decode::lzbuffer::verif_h::accum_from_stream_with_capacity))]
 pub fn xzblk_read_block_fields_hs3_chk1() {
-    read_block_fields::<3, 1>()
+    read_block_fields::<3, 1, 4>()
 }
 
 //@ harness props=C03,C06,C07 tier=thorough optional=yes unwind=6 unwindset=update_table:300,ref_crc32.0:10,ref_crc32.1:300,default_read_exact:4,decompress:4,scripted_block_header:5,read_block_fields:5,spec_fill:8200 mem_gb=12 timeout=900 native=no
@@ -769,5 +774,53 @@ pub fn xzblk_read_block_fields_hs3_chk1() {
 #[cfg_attr(kani, kani::stub(crate::decode::lzma::DecoderState::new, crate::decode::stream::verif_h::new_scripted_lit))]
 #[cfg_attr(kani, kani::stub(crate::decode::lzbuffer::LzAccumBuffer::from_stream, crate::decode::lzbuffer::verif_h::accum_from_stream_with_capacity))]
 pub fn xzblk_read_block_fields_hs64_chk0() {
-    read_block_fields::<64, 0>()
+    read_block_fields::<64, 0, 4>()
+}
+
+//@ harness props=C03,C06,C07 tier=thorough optional=yes unwind=6 unwindset=update_table:300,ref_crc32.0:10,ref_crc32.1:300,default_read_exact:4,decompress:4,scripted_block_header:5,read_block_fields:5,spec_fill:8200 mem_gb=12 timeout=900 native=no opt_covers=declared_size_mismatch_rejected,nonzero_block_padding_rejected
+//@ bound: read_block with the header parser replaced by its contract, 12-byte header, no check, 2 symbolic payload bytes; every field concrete and right
+#[cfg_attr(kani, kani::proof)]
+#[cfg_attr(kani, kani::stub(std::fmt::format, crate::verif_common::stub_format))]
+#[cfg_attr(kani, kani::stub(std::io::Error::is_interrupted, crate::verif_common::stub_not_interrupted))]
+#[cfg_attr(kani, kani::stub(crate::decode::xz::read_block_header, crate::decode::xz::verif_h::scripted_block_header))]
+#[cfg_attr(kani, kani::stub(crate::decode::lzma::DecoderState::new, crate::decode::stream::verif_h::new_scripted_lit))]
+#[cfg_attr(kani, kani::stub(crate::decode::lzbuffer::LzAccumBuffer::from_stream, crate::decode::lzbuffer::verif_h::accum_from_stream_with_capacity))]
+pub fn xzblk_read_block_sym0() {
+    read_block_fields::<3, 0, 0>()
+}
+
+//@ harness props=C03,C06,C07 tier=thorough optional=yes unwind=6 unwindset=update_table:300,ref_crc32.0:10,ref_crc32.1:300,default_read_exact:4,decompress:4,scripted_block_header:5,read_block_fields:5,spec_fill:8200 mem_gb=12 timeout=900 native=no opt_covers=declared_size_mismatch_rejected,nonzero_block_padding_rejected
+//@ bound: read_block with the header parser replaced by its contract, 12-byte header, no check, 2 symbolic payload bytes; header CRC32 field symbolic
+#[cfg_attr(kani, kani::proof)]
+#[cfg_attr(kani, kani::stub(std::fmt::format, crate::verif_common::stub_format))]
+#[cfg_attr(kani, kani::stub(std::io::Error::is_interrupted, crate::verif_common::stub_not_interrupted))]
+#[cfg_attr(kani, kani::stub(crate::decode::xz::read_block_header, crate::decode::xz::verif_h::scripted_block_header))]
+#[cfg_attr(kani, kani::stub(crate::decode::lzma::DecoderState::new, crate::decode::stream::verif_h::new_scripted_lit))]
+#[cfg_attr(kani, kani::stub(crate::decode::lzbuffer::LzAccumBuffer::from_stream, crate::decode::lzbuffer::verif_h::accum_from_stream_with_capacity))]
+pub fn xzblk_read_block_sym1() {
+    read_block_fields::<3, 0, 1>()
+}
+
+//@ harness props=C03,C06,C07 tier=thorough optional=yes unwind=6 unwindset=update_table:300,ref_crc32.0:10,ref_crc32.1:300,default_read_exact:4,decompress:4,scripted_block_header:5,read_block_fields:5,spec_fill:8200 mem_gb=12 timeout=900 native=no opt_covers=nonzero_block_padding_rejected
+//@ bound: read_block with the header parser replaced by its contract, 12-byte header, no check, 2 symbolic payload bytes; declared compressed/uncompressed sizes symbolic
+#[cfg_attr(kani, kani::proof)]
+#[cfg_attr(kani, kani::stub(std::fmt::format, crate::verif_common::stub_format))]
+#[cfg_attr(kani, kani::stub(std::io::Error::is_interrupted, crate::verif_common::stub_not_interrupted))]
+#[cfg_attr(kani, kani::stub(crate::decode::xz::read_block_header, crate::decode::xz::verif_h::scripted_block_header))]
+#[cfg_attr(kani, kani::stub(crate::decode::lzma::DecoderState::new, crate::decode::stream::verif_h::new_scripted_lit))]
+#[cfg_attr(kani, kani::stub(crate::decode::lzbuffer::LzAccumBuffer::from_stream, crate::decode::lzbuffer::verif_h::accum_from_stream_with_capacity))]
+pub fn xzblk_read_block_sym2() {
+    read_block_fields::<3, 0, 2>()
+}
+
+//@ harness props=C03,C06,C07 tier=thorough optional=yes unwind=6 unwindset=update_table:300,ref_crc32.0:10,ref_crc32.1:300,default_read_exact:4,decompress:4,scripted_block_header:5,read_block_fields:5,spec_fill:8200 mem_gb=12 timeout=900 native=no opt_covers=declared_size_mismatch_rejected
+//@ bound: read_block with the header parser replaced by its contract, 12-byte header, no check, 2 symbolic payload bytes; block padding bytes symbolic
+#[cfg_attr(kani, kani::proof)]
+#[cfg_attr(kani, kani::stub(std::fmt::format, crate::verif_common::stub_format))]
+#[cfg_attr(kani, kani::stub(std::io::Error::is_interrupted, crate::verif_common::stub_not_interrupted))]
+#[cfg_attr(kani, kani::stub(crate::decode::xz::read_block_header, crate::decode::xz::verif_h::scripted_block_header))]
+#[cfg_attr(kani, kani::stub(crate::decode::lzma::DecoderState::new, crate::decode::stream::verif_h::new_scripted_lit))]
+#[cfg_attr(kani, kani::stub(crate::decode::lzbuffer::LzAccumBuffer::from_stream, crate::decode::lzbuffer::verif_h::accum_from_stream_with_capacity))]
+pub fn xzblk_read_block_sym3() {
+    read_block_fields::<3, 0, 3>()
 }
